@@ -22,6 +22,29 @@ type ccase struct {
 	// embed: which specs exist — "same": J.M = I.M = spec; "diff": J.M = spec, I.M = the complement;
 	// "absentI": J.M = spec only; "onlyI": I.M = spec only (no spec applies to the call: the body decides)
 	embed string
+	// wrap: how the call to the specified function is made from the caller —
+	// "": plain call statement; "D": `defer f(a…)` (sinks on the other arguments deferred earlier, so they run after f);
+	// "G": `go f(a…)` followed by a receive on the channel the body signals on, then the sinks;
+	// "C": the call and the sinks are inside an immediately-invoked closure taking the arguments as parameters;
+	// "CC": the same closure without parameters (the arguments are captured variables).
+	// Results of a deferred / spawned call are discarded by the language: only the arg -> arg part is observable.
+	wrap string
+}
+
+// observable results of the call form
+func (c *ccase) mObs() int {
+	if c.wrap == "D" || c.wrap == "G" {
+		return 0
+	}
+	return c.m
+}
+
+// the function containing the call to the specified function
+func (c *ccase) callerName(i int) string {
+	if c.wrap == "C" || c.wrap == "CC" {
+		return fmt.Sprintf("case_%d_%d$1", c.id, i)
+	}
+	return fmt.Sprintf("case_%d_%d", c.id, i)
 }
 
 const slots = 16 // sink id = sid*slots + slot; slot j<4: result j; slot 4+k: argument k after the call
@@ -60,6 +83,11 @@ func results(m int) string {
 func body(c *ccase) string {
 	var b strings.Builder
 	b.WriteString("{\n")
+	sig := ""
+	if c.wrap == "G" {
+		// the spawned call signals its completion; the caller receives before it reads the arguments
+		sig = fmt.Sprintf("\tdone_%d <- struct{}{}\n", c.id)
+	}
 	if c.bodyAll {
 		b.WriteString("\tx := \"\"\n\t_ = x\n")
 		for k := 0; k < c.n; k++ {
@@ -68,6 +96,7 @@ func body(c *ccase) string {
 		for k := 0; k < c.n; k++ {
 			fmt.Fprintf(&b, "\ta%d.s = x\n", k)
 		}
+		b.WriteString(sig)
 		if c.m > 0 {
 			var rs []string
 			for j := 0; j < c.m; j++ {
@@ -75,12 +104,15 @@ func body(c *ccase) string {
 			}
 			fmt.Fprintf(&b, "\treturn %s\n", strings.Join(rs, ", "))
 		}
-	} else if c.m > 0 {
-		var rs []string
-		for j := 0; j < c.m; j++ {
-			rs = append(rs, "&T{}")
+	} else {
+		b.WriteString(sig)
+		if c.m > 0 {
+			var rs []string
+			for j := 0; j < c.m; j++ {
+				rs = append(rs, "&T{}")
+			}
+			fmt.Fprintf(&b, "\treturn %s\n", strings.Join(rs, ", "))
 		}
-		fmt.Fprintf(&b, "\treturn %s\n", strings.Join(rs, ", "))
 	}
 	b.WriteString("}\n")
 	return b.String()
@@ -89,6 +121,9 @@ func body(c *ccase) string {
 // render the declarations and the n caller functions of a case; sinks/sources used are appended to decl.
 func (c *ccase) render(b *strings.Builder, used map[string]bool) {
 	name := c.fname()
+	if c.wrap == "G" {
+		fmt.Fprintf(b, "var done_%d = make(chan struct{})\n\n", c.id)
+	}
 	switch c.form {
 	case "F", "FV":
 		fmt.Fprintf(b, "func %s(%s)%s %s\n", name, params(0, c.n), results(c.m), body(c))
@@ -96,7 +131,7 @@ func (c *ccase) render(b *strings.Builder, used map[string]bool) {
 			fmt.Fprintf(b, "var fv_%d = %s\n\n", c.id, name)
 		}
 	default:
-		if c.form != "FM" && c.form != "MV" {
+		if c.form != "FM" && c.form != "MV" && c.form != "MX" {
 			fmt.Fprintf(b, "type I_%d interface {\n\t%s(%s)%s\n}\n\n", c.id, name, params(1, c.n), results(c.m))
 		}
 		if c.form == "IE" {
@@ -115,7 +150,16 @@ func (c *ccase) render(b *strings.Builder, used map[string]bool) {
 		if c.m > 0 {
 			lhs = strings.Join(rs, ", ") + " = "
 		}
-		fmt.Fprintf(b, "\t%s%s()\n}\n\n", lhs, name)
+		switch c.wrap {
+		case "D":
+			fmt.Fprintf(b, "\tdefer %s()\n}\n\n", name)
+		case "G":
+			fmt.Fprintf(b, "\tgo %s()\n\t<-done_%d\n}\n\n", name, c.id)
+		case "C", "CC":
+			fmt.Fprintf(b, "\tfunc() {\n\t\t%s%s()\n\t}()\n}\n\n", lhs, name)
+		default:
+			fmt.Fprintf(b, "\t%s%s()\n}\n\n", lhs, name)
+		}
 	}
 	for i := 0; i < c.n; i++ {
 		s := sid(c, i)
@@ -136,37 +180,88 @@ func (c *ccase) render(b *strings.Builder, used map[string]bool) {
 		if c.m > 0 {
 			lhs = strings.Join(rs, ", ") + " := "
 		}
-		var as []string
+		var as, all []string
 		lo := 0
-		if c.form != "F" && c.form != "FV" {
+		if c.form != "F" && c.form != "FV" && c.form != "MX" {
 			lo = 1
 		}
-		for k := lo; k < c.n; k++ {
-			as = append(as, fmt.Sprintf("a%d", k))
+		for k := 0; k < c.n; k++ {
+			all = append(all, fmt.Sprintf("a%d", k))
+			if k >= lo {
+				as = append(as, fmt.Sprintf("a%d", k))
+			}
 		}
+		// pre: statements that must precede the call (in the function that contains it); call: the call expression
+		pre, call := "", ""
 		switch c.form {
 		case "F":
-			fmt.Fprintf(b, "\t%s%s(%s)\n", lhs, name, strings.Join(as, ", "))
+			call = fmt.Sprintf("%s(%s)", name, strings.Join(as, ", "))
 		case "FV":
-			fmt.Fprintf(b, "\t%sfv_%d(%s)\n", lhs, c.id, strings.Join(as, ", "))
+			call = fmt.Sprintf("fv_%d(%s)", c.id, strings.Join(as, ", "))
 		case "FM":
-			fmt.Fprintf(b, "\t%sa0.%s(%s)\n", lhs, name, strings.Join(as, ", "))
+			call = fmt.Sprintf("a0.%s(%s)", name, strings.Join(as, ", "))
+		case "MX":
+			// method expression: the receiver is the first argument
+			call = fmt.Sprintf("(*T).%s(%s)", name, strings.Join(as, ", "))
 		case "MV":
-			fmt.Fprintf(b, "\th := a0.%s\n\t%sh(%s)\n", name, lhs, strings.Join(as, ", "))
+			pre = fmt.Sprintf("h := a0.%s\n", name)
+			call = fmt.Sprintf("h(%s)", strings.Join(as, ", "))
 		case "IE":
-			fmt.Fprintf(b, "\tvar x J_%d = a0\n\t%sx.%s(%s)\n", c.id, lhs, name, strings.Join(as, ", "))
+			pre = fmt.Sprintf("var x J_%d = a0\n", c.id)
+			call = fmt.Sprintf("x.%s(%s)", name, strings.Join(as, ", "))
 		default:
-			fmt.Fprintf(b, "\tvar x I_%d = a0\n\t%sx.%s(%s)\n", c.id, lhs, name, strings.Join(as, ", "))
+			pre = fmt.Sprintf("var x I_%d = a0\n", c.id)
+			call = fmt.Sprintf("x.%s(%s)", name, strings.Join(as, ", "))
 		}
-		for j := 0; j < c.m; j++ {
-			fmt.Fprintf(b, "\tsink_%d(r%d)\n", s*slots+j, j)
-			used[fmt.Sprintf("func sink_%d(x *T) {}", s*slots+j)] = true
+		var sinks []string
+		if c.wrap != "D" && c.wrap != "G" {
+			for j := 0; j < c.m; j++ {
+				sinks = append(sinks, fmt.Sprintf("sink_%d(r%d)", s*slots+j, j))
+				used[fmt.Sprintf("func sink_%d(x *T) {}", s*slots+j)] = true
+			}
 		}
 		for k := 0; k < c.n; k++ {
 			if k != i {
-				fmt.Fprintf(b, "\tsink_%d(a%d)\n", s*slots+4+k, k)
+				sinks = append(sinks, fmt.Sprintf("sink_%d(a%d)", s*slots+4+k, k))
 				used[fmt.Sprintf("func sink_%d(x *T) {}", s*slots+4+k)] = true
 			}
+		}
+		ind := "\t"
+		switch c.wrap {
+		case "C":
+			// the names of the closure's parameters shadow the caller's variables: the call text is unchanged
+			fmt.Fprintf(b, "\tfunc(%s) {\n", params(0, c.n))
+			ind = "\t\t"
+		case "CC":
+			b.WriteString("\tfunc() {\n")
+			ind = "\t\t"
+		}
+		if pre != "" {
+			b.WriteString(ind + pre)
+		}
+		switch c.wrap {
+		case "D":
+			// deferred calls run last-in first-out: the sinks registered first run after the call to f
+			for k := len(sinks) - 1; k >= 0; k-- {
+				fmt.Fprintf(b, "\tdefer %s\n", sinks[k])
+			}
+			fmt.Fprintf(b, "\tdefer %s\n", call)
+		case "G":
+			fmt.Fprintf(b, "\tgo %s\n\t<-done_%d\n", call, c.id)
+			for _, x := range sinks {
+				fmt.Fprintf(b, "\t%s\n", x)
+			}
+		default:
+			fmt.Fprintf(b, "%s%s%s\n", ind, lhs, call)
+			for _, x := range sinks {
+				fmt.Fprintf(b, "%s%s\n", ind, x)
+			}
+		}
+		switch c.wrap {
+		case "C":
+			fmt.Fprintf(b, "\t}(%s)\n", strings.Join(all, ", "))
+		case "CC":
+			b.WriteString("\t}()\n")
 		}
 		b.WriteString("}\n\n")
 	}
@@ -200,7 +295,7 @@ func specs(mod string, cs []*ccase) []byte {
 		switch c.form {
 		case "F", "FV":
 			fn.Methods[c.fname()] = sum
-		case "FM", "MV":
+		case "FM", "MV", "MX":
 			mt.Methods[c.fname()] = sum
 		case "IE":
 			other := specSummary{nonNil(c.other[0][0]), nonNil(c.other[0][1])}
